@@ -70,14 +70,16 @@ def nameNoBrackets (u : UInfo) (a : Arg) : Bytes :=
   | [n] => n
   | _ => Help.intercalateB [32] (vn.map fun n => [60] ++ n ++ [62])
 
-/-- `Command::format_group`: `<a|b|c>` over the unrolled members that are args -/
+/-- the members `Command::format_group` displays: the unrolled members that are args and are not hidden (after the
+`fix:` for finding F29; hidden members used to be listed too) -/
+def groupShown (c : Cmd) (g : Id) : Option (List Arg) :=
+  (Validator.argsInGroup c g).map fun ms => (ms.filterMap c.find).filter fun a => !a.hide
+
+/-- `Command::format_group`: `<a|b|c>` -/
 def formatGroup (c : Cmd) (u : UInfo) (g : Id) : Option Bytes :=
-  match Validator.argsInGroup c g with
-  | none => none
-  | some ms =>
-    let names := ms.filterMap fun x => (c.find x).map fun a =>
-      if a.isPositional then nameNoBrackets u a else Help.display (toHArg u a)
-    some ([60] ++ Help.intercalateB [124] names ++ [62])
+  (groupShown c g).map fun shown =>
+    [60] ++ Help.intercalateB [124] (shown.map fun a =>
+      if a.isPositional then nameNoBrackets u a else Help.display (toHArg u a)) ++ [62]
 
 /-- `needs_options_tag`: is there a visible, optional, non-built-in option outside every required group? -/
 def optionCounts (c : Cmd) (f : Arg) : Bool :=
